@@ -149,15 +149,7 @@ def apply_cdata(evs, names):
 
 def cdata_safe_names(evs, v11_possible=True):
     """elements whose text children may go into CDATA sections without entering C04's known classes (CR in CDATA)"""
-    bad, stack = set(), []
-    for e in evs:
-        if e[0] == "S":
-            stack.append(tuple(e[1]))
-        elif e[0] == "E":
-            stack.pop()
-        elif e[0] == "T" and stack and any(u == 13 for u in e[1]):
-            bad.add(stack[-1])
-    return [n for n in element_names(evs) if n not in bad]
+    return element_names(evs)      # CR / NEL / LSEP / 1.1 controls inside CDATA sections were repaired in /repo (c0025ef, 1a380fd)
 
 
 # set by run() from the regenerated facts: which variant of the three repaired functions /repo has
@@ -344,16 +336,48 @@ def depth_boundary_groups():
     return gs
 
 
+def cdata_boundary_groups():
+    """cdata-section-elements x encoding x version on text in which a character that has to leave the CDATA section as a
+    character reference (CR; a character outside the encoding; under 1.1 NEL, LSEP and restricted controls) is directly
+    followed by ']]>' or one of its prefixes: writeCDATAChars closes the section, writes the reference, and has to know
+    whether it is inside or outside when the ']]>' splitting comes"""
+    gs = []
+    specials = [("cr", [13], False), ("euro", [0x20AC], False), ("x100", [0x100], False), ("pair", [0xD83D, 0xDE00], False), ("latin", [0xE9], False),
+                ("c1", [1], True), ("nel", [0x85], True), ("lsep", [0x2028], True), ("del", [0x7F], True), ("c9f", [0x9F], True)]
+    tails = [u16("]]>"), u16("]]"), u16("]"), u16(">"), u16("]]>z"), u16("]]>]]>"), u16("]]]>"), [13] + u16("]]>")]
+    for sname, sp, only11 in specials:
+        for ti, tail in enumerate(tails):
+            for pre in ([], u16("ab")):
+                if pre and ti % 2:
+                    continue
+                evs = [("S", u16("r"), []), ("S", u16("a"), []), ("T", pre + sp + tail + u16("q")), ("E", u16("a")),
+                       ("S", u16("b"), []), ("T", sp + sp + tail), ("E", u16("b")), ("E", u16("r"))]
+                cd = apply_cdata(evs, [u16("a"), u16("b")])
+                vers = ["1.1"] if only11 else ["1.0", "1.1"]
+                variants = []
+                for enc in ENCODINGS:
+                    for ver in vers:
+                        variants.append(((enc, ver, -1, 0, "-", "-", "-"), cd))
+                variants.append((("ISO-8859-1", vers[-1], 2, 0, "-", "-", "-"), cd))
+                # no declaration only with 1.0: a document without declaration is read as XML 1.0, where '&#1;' is not a Char
+                # (version="1.1" with omit-xml-declaration="yes" is an error in XSLT 2.0; XSLT 1.0 is silent: assumption)
+                variants.append((("US-ASCII", vers[0], -1, 0 if only11 else 1, "-", "-", "-"), evs))
+                gs.append(("boundary:cdata:" + sname, evs, variants, ("UTF-8", vers[0], -1, 0, "-", "-", "-")))
+    return gs
+
+
 ERRMAP = S4.ERRMAP
 
 
 def run_x(ctx, groups, impl, model, known_keys):
     lines, meta = [], {}
     n0 = ctx.cov["evaluations"]
-    for gi, (cls, evs, variants) in enumerate(groups):
+    for gi, g in enumerate(groups):
+        cls, evs, variants = g[0], g[1], g[2]
+        base_cfg = g[3] if len(g) > 3 else BASE_CFG
         bid = "g%d.b" % (n0 + gi)
-        lines.append(x_line(bid, BASE_CFG, evs))
-        meta[bid] = (cls, BASE_CFG, evs, None, lines[-1])
+        lines.append(x_line(bid, base_cfg, evs))
+        meta[bid] = (cls, base_cfg, evs, None, lines[-1])
         for vi, (cfg, ev) in enumerate(variants):
             vid = "g%d.v%d" % (n0 + gi, vi)
             lines.append(x_line(vid, cfg, ev))
@@ -399,7 +423,7 @@ def run_x(ctx, groups, impl, model, known_keys):
                 if rb and "|" in rb and rb.startswith("ok:") and not rb.split("|", 1)[1].startswith("PARSEERR"):
                     rel = ws_relation(parse_tokens(rb.split("|", 1)[1]), parse_tokens(newp), cfg[2] >= 0)
                     if rel:
-                        what = "parsed result differs from the one under the base setting (UTF-8, 1.0, no indent, no doctype): " + rel
+                        what = "parsed result differs from the one under the base setting (%s): " % " ".join(str(x) for x in meta[bid][1]) + rel
             if what is None:
                 # and against the script itself (what the tree is), C04's expectation
                 rel = ws_relation(parse_tokens(S4.expected_tree(evs)), parse_tokens(newp), cfg[2] >= 0)
@@ -1170,6 +1194,7 @@ def run(ctx):
         "the staging buffers of the writers are transparent (C04 writer_transparent): the model renders with SerUtfDefs.payload",
         "XalanOutputStream + transcoder below the serializers is not modelled beyond: UTF-8 bytes pass, UTF-16 = BOM + little-endian units, ISO-8859-1/US-ASCII map unit n to byte n, an unrepresentable unit of the text method becomes 0x1A (correspondence-checked)",
         "when omit-xml-declaration=yes suppresses the declaration, the oracle's parser is told the requested encoding (external information, as a transport header would carry it)",
+        "version=1.1 is combined with omit-xml-declaration=yes only for trees without characters that exist in XML 1.1 only (a document without declaration is read as XML 1.0)",
         "the newline string is LF (XalanOutputStream::defaultNewlineString on this platform)",
         "charactersRaw (disable-output-escaping) and entityReference are outside the model; the PI pair that switches to raw output is never generated",
         "HTML: no Coq model of FormatterToHTML's writer; only the regenerated element/attribute table look-ups are modelled (Q correspondence); HTML 4.01's lists of void elements, CDATA-content elements, boolean and URI attributes are the oracle's own",
@@ -1211,7 +1236,7 @@ def run(ctx):
     orc += corpus_orc
 
     def stage(n_trees, n_var, n_t, n_h, n_z, boundary=True):
-        groups = gen_x_cases(ctx, n_trees, n_var) + (depth_boundary_groups() if boundary else [])
+        groups = gen_x_cases(ctx, n_trees, n_var) + (depth_boundary_groups() + cdata_boundary_groups() if boundary else [])
         if not ctx.cov["samples"]:
             ctx.cov["samples"] = [x_line("s%d" % i, g[2][0][0], g[2][0][1])[:300] for i, g in enumerate(groups[:4])]
         c1, o1 = run_x(ctx, groups, impl, model, known_keys)
